@@ -18,7 +18,7 @@ Lemma relaid_attrs s s' : relaid s s' ->
 Proof. intros [->|[(o & ->)|(a & o & ->)]]; repeat split. Qed.
 
 Lemma keeps_relaid s s' : keeps s s' -> relaid s s'.
-Proof. intros [->| ->]; [now left|right; left; eauto]. Qed.
+Proof. intros [->|[_ ->]]; [now left|right; left; eauto]. Qed.
 
 Lemma indexed_relaid l l' : Forall2 relaid l l' -> forall i, indexed_from i l -> indexed_from i l'.
 Proof.
